@@ -1614,9 +1614,42 @@ def rule_same_finder(prog):
                 continue
             rets = [r for r in hir.nodes(iff["then"], "Ret")]
             returns_none = any(any(last(pth["res"].get("ctor_of", "")) == "None" for pth in hir.nodes(r, "Path")) for r in rets)
+            returns_some = any(any(last(pth["res"].get("ctor_of", "")) == "Some" for pth in hir.nodes(r, "Path")) for r in rets) and not returns_none
+            # canonical form: the condition under which nothing is answered.  `if !c { return None }` and
+            # `if c { return Some(..) }` (with None behind it) say the same
+            cond_ = hir.strip(iff["cond"])
+            neg = False
+            while cond_.get("k") == "Unary" and cond_.get("op") in ("!", "Not", "not"):
+                neg = not neg
+                cond_ = hir.strip(cond_["e"])
             if returns_none:
-                conds.append(shape(iff["cond"]))
+                conds.append(("refuse-unless " if neg else "refuse-if ") + shape(cond_))
+            elif returns_some:
+                conds.append(("refuse-if " if neg else "refuse-unless ") + shape(cond_))
         refusals[fn] = sorted(conds)
+    # what rename refuses: the entities that have no declaration in the document (predefined ones) - decided from the *binding* of
+    # the identifier (its looked-up entry, `is_default()`), not from its spelling: `printi` is predefined without being spelled `int`,
+    # and a variable may be spelled `int`
+    rb_ = prog.body("lsp4spl::features::references::rename")
+    if rb_ is not None:
+        by_binding = False
+        by_spelling = None
+        for iff in hir.nodes(rb_["body"], "If"):
+            if hir.strip(iff["cond"]).get("k") == "LetExpr":
+                continue
+            rets = [r for r in hir.nodes(iff["then"], "Ret")]
+            if not any(any(last(pth["res"].get("ctor_of", "")) == "None" for pth in hir.nodes(r, "Path")) for r in rets):
+                continue
+            for x in hir.nodes_deep(prog, iff["cond"], 2, crate=c):
+                if x.get("k") == "MethodCall" and x["m"] == "is_default":
+                    by_binding = True
+                if x.get("k") == "Binary" and x["op"] in ("==", "!=") and any(
+                        y.get("k") == "Lit" and y["lit"].get("k") == "str" for y in hir.nodes(x)):
+                    by_spelling = x
+        out.add("references::rename", "rename is refused for predefined entities, decided from the binding of the identifier", by_binding,
+                c.loc((by_spelling or rb_)["sp"]), "rename %s: a predefined procedure (`printi`) can be renamed although it has no declaration - the renamed "
+                "calls become undefined procedures - and an entity that merely shares the spelling cannot"
+                % ("refuses by comparing the identifier's text with a literal" if by_spelling is not None else "has no refusal that asks `is_default()`"))
     if len(refusals) == 2:
         out.add("references", "prepare-rename refuses under exactly the conditions under which rename refuses",
                 refusals["rename"] == refusals["prepare_rename"] and bool(refusals["rename"]), "",
